@@ -37,6 +37,8 @@ def conc(cls, k):
         return [-1.5e300, -2.25, -0.5, 0.0, 0.75, 3.5, float("inf")][k]
     if cls in ("obj_str", "str"):
         return ["Aaaa", "Bcde", "aéz", "abcd", "abce", "b中z", "zzzz"][k]    # UTF-8 byte order = this order
+    if cls == "obj_str_e":
+        return ["", "Bcde", "aéz", "abcd", "abce", "b中z", "zzzz"][k]
     if cls == "obj_bytes":
         return [b"\x00\x01\x02\x03", b"Aaaa", b"abcd", b"abce", b"b\x7fzz", b"\x80abc", b"\xff\xfe\xfd\xfc"][k]
     if cls in ("dt_ns", "dt_us", "dt_ms", "dt_s", "dt_tz"):
@@ -72,7 +74,7 @@ def series(cls, cells, name="x"):
         return pd.Series(np.array(vals, dtype=NP_DTYPE[cls]) if vals else np.array([], dtype=NP_DTYPE[cls]), name=name)
     if cls in MASKED:
         return pd.Series(pd.array([pd.NA if m else v for v, m in zip(vals, miss)], dtype=cls), name=name)
-    if cls == "obj_str" or cls == "obj_bytes":
+    if cls in ("obj_str", "obj_bytes", "obj_str_e"):
         return pd.Series(vals, dtype=object, name=name)
     if cls == "str":
         return pd.Series(vals, dtype="str", name=name)
@@ -116,7 +118,7 @@ def cell_equal(cls, got, want_k):
         return pd.Timedelta(got) == want
     if cls == "obj_bytes":
         return bytes(got) == want
-    if cls in ("obj_str", "str", "cat_str"):
+    if cls in ("obj_str", "str", "cat_str", "obj_str_e"):
         return str(got) == want
     if cls.startswith("float"):
         return float(got) == float(np.dtype(NP_DTYPE[cls]).type(want))
@@ -132,7 +134,7 @@ def stat_equal(cls, got, want_k):
     import pandas as pd
     want = conc(cls, want_k)
     try:
-        if cls in ("obj_str", "str", "cat_str"):
+        if cls in ("obj_str", "str", "cat_str", "obj_str_e"):
             g = got.decode("utf8") if isinstance(got, (bytes, np.bytes_)) else str(got)
             return g == want
         if cls == "obj_bytes":
@@ -155,7 +157,7 @@ def dtype_ok(cls, dtype):
         return s == NP_DTYPE[cls]
     if cls in MASKED:
         return s == cls
-    if cls in ("obj_str", "str"):
+    if cls in ("obj_str", "str", "obj_str_e"):
         return s in ("object", "str", "string")
     if cls == "obj_bytes":
         return s == "object"
@@ -229,7 +231,7 @@ def expected_logical(cls, k):
     if cls.startswith("float"):
         import numpy as np
         return ("float", float(np.dtype(NP_DTYPE[cls]).type(v)))
-    if cls in ("obj_str", "str", "cat_str"):
+    if cls in ("obj_str", "str", "cat_str", "obj_str_e"):
         return ("bytes", v.encode("utf8"))
     if cls == "obj_bytes":
         return ("bytes", v)
